@@ -1,0 +1,6 @@
+//go:build !verif && amd64
+// +build !verif,amd64
+
+package gf2p16
+
+const verifPortable = false
